@@ -109,6 +109,7 @@ def gen_sequence(r, scopes, desc):
     running_total = 0
     n_exc = desc["exceptions"]
     fail_tail = n_exc >= 150 and r.random() < 0.7  # every call fails: the run ends with failures beyond the 128-exception cap
+    micro = r.random() < 0.15  # every call lasts well under a millisecond (binary fractions, so that the expected sums are exact)
     for section in sections:
         use = scopes if section == "run" else scopes[: max(1, len(scopes) // 2)]
         totals = {sc: r.randint(1, 6) if n_exc < 100 else r.randint(20, 60) for sc in use}
@@ -131,7 +132,7 @@ def gen_sequence(r, scopes, desc):
         pending = list(work)
         while pending or open_by_thread:
             th = r.randrange(T)
-            dtm = r.choice([0.0, 0.0, 0.25, 1.0, 3.5, 60.0])
+            dtm = r.choice([0.0, 2.0 ** -11, 2.0 ** -13, 2.0 ** -11]) if micro else r.choice([0.0, 0.0, 0.25, 1.0, 3.5, 60.0, 2.0 ** -11])
             if th in open_by_thread:
                 sc = open_by_thread.pop(th)
                 left_open = r.random() < 0.03
